@@ -84,3 +84,6 @@ Qed.
 Lemma gen_svf_exp_flag_is_grid_flag :
   (forall ac, gen_svf_init_exp_ac ac = ac) /\ (forall old new, gen_svf_regrid_exp_ac old new = new).
 Proof. split; [intros [] | intros [] []]; reflexivity. Qed.
+Lemma gen_inverse_u_by_inverse_exp :
+  gen_svf_inverse_u_by_inverse_exp = true /\ gen_svffd_inverse_u_by_inverse_exp = true.
+Proof. split; reflexivity. Qed.
